@@ -123,7 +123,7 @@ func main() {
 					for cl := range classes {
 						for _, lim := range []bool{false, true} {
 							for _, big := range []bool{false, true} {
-								for q := 0; q < 2; q++ {
+								for q := 0; q < 3; q++ {
 									for sp := range spamVariants {
 										cells = append(cells, cell{a, rj, cl, lim, big, q, sp, rng.Intn(3), rng.Chance(20)})
 									}
@@ -149,7 +149,7 @@ func main() {
 				}
 			}
 			for i := 0; i < 250; i++ {
-				cells = append(cells, cell{rng.Intn(3), rng.Bool(), rng.Intn(len(classes)), rng.Chance(25), rng.Chance(20), rng.Intn(2), rng.Intn(len(spamVariants)), rng.Intn(3), rng.Chance(20)})
+				cells = append(cells, cell{rng.Intn(3), rng.Bool(), rng.Intn(len(classes)), rng.Chance(25), rng.Chance(20), rng.Intn(3), rng.Intn(len(spamVariants)), rng.Intn(3), rng.Chance(20)})
 			}
 		}
 	}
@@ -329,6 +329,11 @@ func play(rep *hx.Report, w *world.World, o *hx.Opts, c cell, idx int) {
 		wantData = "552"
 	}
 	rep.Hit("data:" + got)
+	if wantOwner == "none" && !quotaOK && (got == "550" || got == "552") {
+		// no store can be found for the address and the quota is exceeded: refused either way; which of the two refusals is
+		// reported first is not documented
+		got = wantData
+	}
 	if got != wantData {
 		viol(fmt.Sprintf("reply after DATA is %s, expected %s", got, wantData))
 		return
